@@ -10,6 +10,7 @@ import PaletteModel.AdaptDriver
 import PaletteModel.SerdeDriver
 import PaletteModel.CastDriver
 import PaletteModel.InPlaceDriver
+import PaletteModel.InPlacePanicDriver
 import PaletteModel.DiffDriver
 import PaletteModel.BlendDriver
 import PaletteModel.OpsDriver
@@ -38,6 +39,8 @@ def dispatch (op : String) (cfg inp outp : List String) : Verdict :=
   | "cast" | "c04fields" | "c04layout" => Cast.handle op cfg inp outp
   | "hist" => InPlace.handle cfg inp outp
   | "gapi" => InPlace.handleApi cfg inp outp
+  | "phist" => InPlace.handlePanic cfg inp outp
+  | "pown" => InPlace.handleOwnedPanic cfg outp
   | "de00" | "dist" | "dist1" | "hyab" | "deltae" | "polar2rect" | "wcag" => Diff.handle op cfg inp outp
   | "blend" | "compose" | "blendwith" | "premul" | "unpremul" => Blend.handle op cfg inp outp
   | "smpstd" | "smpuni" | "smpmeta" => Sampling.handle op cfg inp outp
